@@ -4,6 +4,7 @@
   heap store of the machine model.
 -/
 import Nlmodel.Proofs.Lemmas.GCReach
+import Nlmodel.Proofs.Lemmas.TypeInv
 import Nlmodel.Model.Pipeline
 namespace Nl
 namespace C03
@@ -215,6 +216,33 @@ theorem C03_return_instructions_keep_reachable (i : Instr) (hi : i = .retv ∨ i
     · left; left; right; exact hx
     · left; right; exact hx
     · right; exact hx
+
+/-! ### the hypotheses above hold in every state any run reaches -/
+
+/-- TYPE SOUNDNESS OF THE MACHINE'S VALUES (`TI.exec_wt`, all 26 instructions): in every state a run of
+    ANY program passes through — on a fresh machine (`TI.wt_empty`) or on what earlier lines of a
+    session left (`TI.vmrun_wt`) — the tag of every value the machine holds (operand stack, locals,
+    globals, constants, last-popped register, every element of every heap array) agrees with the kind
+    of the cell it points to.  Hence `HeapKindOK` and `KindOK` of the roots, the hypotheses of the
+    collector theorems, are facts about reachable states, not assumptions. -/
+theorem C03_reachable_states_are_well_typed (prev : VM) (bc : Bytecode) (hp : TI.WT prev) (s : VM)
+    (hs : TI.Reachable bc.code (prev.start bc) s) :
+    HeapKindOK s.mem.heap ∧ ∀ v, v ∈ s.stack.toList ++ s.cvals.toList ++ s.globals.toList ++ [s.last] → KindOK s.mem.heap v :=
+  TI.wt_kinds (TI.reachable_wt bc.code _ (TI.start_wt prev bc hp) s hs)
+
+/-- C03 AT EVERY COLLECTION POINT OF EVERY RUN, without hypotheses on the heap: whenever a return
+    instruction executes in a state that a run of any program has reached, every managed object
+    reachable from anything the machine still holds afterwards is still managed and has exactly the
+    contents it had -/
+theorem C03_every_return_of_every_run_keeps_reachable (prev : VM) (bc : Bytecode) (hp : TI.WT prev) (s s' : VM)
+    (hs : TI.Reachable bc.code (prev.start bc) s) (i : Instr) (hi : i = .retv ∨ i = .ret) (ip' : Nat)
+    (h : exec i ip' s = .next s') (a : Nat) (ha : Reach s.mem.heap s.mem.managed (held s') a) :
+    s'.mem.heap.get a = s.mem.heap.get a ∧ a ∈ s'.mem.managed := by
+  obtain ⟨hk, hr⟩ := C03_reachable_states_are_well_typed prev bc hp s hs
+  exact C03_return_instructions_keep_reachable i hi ip' s s' h hk (fun v hv => hr v hv) a ha
+
+/-- non-vacuity: a fresh machine is well-typed, and so is what any run leaves behind for the next line -/
+example : TI.WT ({} : VM) := TI.wt_empty
 
 end C03
 end Nl
